@@ -59,6 +59,13 @@ pub fn build_from(base: OpeningHours, c: &Ctx) -> Result<AnyOh, String> {
             AnyOh::Z(base.with_context(Context::default().with_holidays(country.holidays()).with_locale(TzLocation::new(tz))), tz)
         }
         Ctx::Custom(k) => AnyOh::N(base.with_context(Context::default().with_holidays(custom_holidays(*k)))),
+        Ctx::CustomEdited(k) => {
+            let mut cal = (*custom_holidays(*k).get_public()).clone();
+            for d in custom_edit_dates(*k) {
+                cal.insert(d);
+            }
+            AnyOh::N(base.with_context(Context::default().with_holidays(opening_hours::ContextHolidays::new(Arc::new(cal), Arc::default()))))
+        }
         Ctx::TzCoords(z, lat, lon) => {
             let tz: Tz = z.parse().map_err(|_| format!("unknown zone {z}"))?;
             let co = coords(*lat, *lon).ok_or_else(|| "invalid coordinates".to_string())?;
@@ -84,6 +91,18 @@ pub fn custom_holidays(k: u32) -> opening_hours::ContextHolidays {
     // a few days that depend on k only, so that no two calendars are equal
     cal.insert(NaiveDate::from_ymd_opt(2024, 7, 1).unwrap() + chrono::TimeDelta::days((k % 20_000) as i64));
     opening_hours::ContextHolidays::new(Arc::new(cal), Arc::default())
+}
+
+/// days added later to calendar k, all in years of its window that hold no day yet (2022, 2023, 2026-2029) or few
+pub fn custom_edit_dates(k: u32) -> Vec<NaiveDate> {
+    let k = k as i64;
+    vec![
+        NaiveDate::from_ymd_opt(2027, 5, 17).unwrap() + chrono::TimeDelta::days(k % 7),
+        NaiveDate::from_ymd_opt(2022, 11, 1).unwrap() + chrono::TimeDelta::days(k % 5),
+        NaiveDate::from_ymd_opt(2026, 1, 31).unwrap(),
+        NaiveDate::from_ymd_opt(2029, 12, 31).unwrap(),
+        NaiveDate::from_ymd_opt(2024, 12, 25).unwrap(),
+    ]
 }
 
 impl AnyOh {
@@ -339,6 +358,33 @@ fn eval_inner(op: &Op, pre: Option<(&Shared, &[(String, Ctx)])>, chans: Option<&
             }
             format!("churn {:016x}", f.0)
         }
+        Op::EditedCalendar { e, k, t, n } => match OpeningHours::parse(e) {
+            Ok(base) => {
+                let orig = custom_holidays(*k);
+                let oh_a = AnyOh::N(base.clone().with_context(Context::default().with_holidays(orig.clone())));
+                let ra = take_n(oh_a.iter(*t), *n).join("");
+                // a copy of the calendar that has just been queried, edited through the public year-level API
+                let mut cal = (*orig.get_public()).clone();
+                for d in custom_edit_dates(*k) {
+                    match cal.year_for_mut(d) {
+                        Some(y) => {
+                            y.insert(chrono::Datelike::month(&d), chrono::Datelike::day(&d));
+                        }
+                        None => {
+                            cal.insert(d);
+                        }
+                    }
+                }
+                let oh_b = AnyOh::N(base.with_context(Context::default().with_holidays(opening_hours::ContextHolidays::new(Arc::new(cal), Arc::default()))));
+                let rb = take_n(oh_b.iter(*t), *n).join("");
+                let ra2 = take_n(oh_a.iter(*t), *n).join("");
+                format!("{ra} | {rb} | {ra2}")
+            }
+            Err(e) => {
+                let m = format!("parse error: {e}");
+                format!("{m} | {m} | {m}")
+            }
+        },
         Op::Zip { e1, t1, e2, t2, n } => match (build(e1, &Ctx::Default), build(e2, &Ctx::Default)) {
             (Ok(a), Ok(b)) => {
                 let (mut ia, mut ib) = (a.iter(*t1), b.iter(*t2));
@@ -490,6 +536,11 @@ pub fn reference_ops(op: &Op, prebuilt: &[(String, Ctx)]) -> Vec<Op> {
             Op::StateNext { e: e.clone(), c: c.clone(), t: *t1 },
             Op::StateNext { e: e.clone(), c: c.clone(), t: *t2 },
             Op::StateNext { e: e.clone(), c: c.clone(), t: *t1 },
+        ],
+        Op::EditedCalendar { e, k, t, n } => vec![
+            Op::Iter { e: e.clone(), c: Ctx::Custom(*k), t: *t, n: *n },
+            Op::Iter { e: e.clone(), c: Ctx::CustomEdited(*k), t: *t, n: *n },
+            Op::Iter { e: e.clone(), c: Ctx::Custom(*k), t: *t, n: *n },
         ],
         Op::Zip { e1, t1, e2, t2, n } => vec![
             Op::Iter { e: e1.clone(), c: Ctx::Default, t: *t1, n: *n },
